@@ -698,6 +698,22 @@ def _builtin(ex, name, node, st):
     args = node.args
     if name in ("max", "min"):
         vals = [ex.ev(a, st) for a in args]
+        if len(vals) == 1 and isinstance(T.opt_inner(vals[0]).ty if isinstance(vals[0].ty, T.Opt) else vals[0].ty, T.List) \
+                and (vals[0].ty.t if isinstance(vals[0].ty, T.List) else None) in (T.DT, T.TD, T.Int, T.Real):
+            # max(xs) / min(xs) of a list of numbers or dates: an element of xs that bounds all others
+            # (ValueError on an empty list is a safety obligation)
+            lv = vals[0]
+            n = ex.h.list_len(st, lv.t, lv.ty)
+            if not ex.spec:
+                ex.oblige(st, "safety", f"{name}-of-empty@{node.lineno}", n > 0, node, f"{name}() of an empty list raises ValueError")
+            r = T.fresh(lv.ty.t, f"{name}.of.list")
+            k = z3.Int(T.fresh_name("mk"))
+            ek = ex.h.list_get(st, lv.ty, lv.t, k)
+            rel = (r.t >= ek.t) if name == "max" else (r.t <= ek.t)
+            st.pc.append(z3.ForAll([k], z3.Implies(z3.And(k >= 0, k < n), rel)))
+            w = z3.Int(T.fresh_name("mw"))
+            st.pc.append(z3.And(w >= 0, w < n, ex.h.list_get(st, lv.ty, lv.t, w).t == r.t))
+            return r
         if len(vals) < 2:
             raise Unsupported(f"{name} of iterable", node)
         res = vals[0]
